@@ -64,6 +64,8 @@ def key_pool(rnd, fam, deep=False):
 
 
 ASNS = [0, 1, 2, 65000, 4294967295]
+# AS numbers spread over the whole 32-bit range: signed / subtracting comparisons order them cyclically
+WIDE_ASNS = [64512, 2100000000, 2147483647, 2147483648, 4200000000, 4294967295]
 
 
 def record_pool(rnd, fam, keys, nsrc):
@@ -73,6 +75,15 @@ def record_pool(rnd, fam, keys, nsrc):
         for _ in range(rnd.randint(1, 3)):
             mx = rnd.choice([ln, ln, min(w, ln + 1), w, rnd.randint(ln, w), max(0, ln - 1), 255])
             recs.append((fam, bits, ln, mx, rnd.choice(ASNS), rnd.randint(0, nsrc)))      # source 0 = no socket (NULL)
+    # one node that holds many records: the same prefix / max length / source for AS numbers far apart
+    if keys:
+        bits, ln = rnd.choice(keys)
+        src = rnd.randint(0, nsrc)
+        fam_as = rnd.sample(WIDE_ASNS, rnd.randint(3, len(WIDE_ASNS)))
+        for a in fam_as:
+            r = (fam, bits, ln, ln, a, src)
+            if r not in recs:
+                recs.append(r)
     return recs
 
 
